@@ -455,7 +455,7 @@ theorem mem_copies_iff (g : Graph) (p i : Nat) (hp : p < g.nodes.length) (hf : (
     · exact ⟨hp, rfl⟩
     · exact (mem_classNodes g _ i).mp h
   · intro h
-    exact mem_copies g i p h.1 hf h.2
+    exact mem_copies_of_cls g i p h.1 hf h.2
 
 theorem mem_sharedResults_iff (g : Graph) (s : State) (p : Nat) (r : Result) :
     r ∈ sharedResults g s p ↔ ∃ i ∈ g.copies p, r ∈ (s.nd i).results := by
